@@ -178,3 +178,7 @@ pub use span::Span;
 /// Module that provides a WithPositions type
 mod with_positions;
 pub use with_positions::{MatchExtIterator, WithPositions};
+
+#[cfg(feature = "verif_hooks")]
+#[doc(hidden)]
+pub mod verif;
